@@ -702,6 +702,12 @@ func (e *Engine) specEqual(env *Env, a, b TV) (Term, error) {
 		a, b = b, a
 		aNil, bNil = bNil, aNil
 	}
+	if bNil {
+		// an interior pointer (&x.f, &s[i], &local) is never nil (addons: findNextSegment returns &segments[i])
+		if p, ok := a.V.(*Ptr); ok && (p.Kind == pkCell || p.Kind == pkField || p.Kind == pkElem) {
+			return TFalse, nil
+		}
+	}
 	at, err := s.toTerm(a.V)
 	if err != nil {
 		return Term{}, err
